@@ -153,6 +153,9 @@ class Network:
 
     def _deliver(self, t, payload):
         self.log.append((self.loop.time(), "s>c", payload))
+        before = getattr(self, "on_before_deliver", None)
+        if before is not None:
+            before(t, payload)          # e.g. to deliver something of the spa's own right IN FRONT of this datagram
         t.deliver(payload, SIM_ADDR)
         hook = getattr(self, "on_deliver", None)
         if hook is not None:
